@@ -27,6 +27,23 @@ def install(I):
     summaries.install(I)
 
 
+_NONE_ASSIGNED = {}
+
+
+def _assigned_none(I, cls, attr):
+    import ast
+    key = (id(I.m), cls, attr)
+    if key not in _NONE_ASSIGNED:
+        from . import census
+        found = False
+        for (q, val, line, mod, aug) in census.attr_stores(I.m, attr):
+            owner = q.split('.')[0]
+            if owner in I.m.mro(cls) and isinstance(val, ast.Constant) and val.value is None:
+                found = True
+        _NONE_ASSIGNED[key] = found
+    return _NONE_ASSIGNED[key]
+
+
 def materialise(I, st, o, cls, attr):
     spec = None
     for c in I.m.mro(cls):
@@ -38,6 +55,10 @@ def materialise(I, st, o, cls, attr):
     if spec is None:
         if attr == '_logger':
             return Opaque('logger')
+        # a field the table does not know (added by a change): unknown content; it may be None when the class itself
+        # assigns None to it somewhere (lazily built caches, optional collaborators)
+        if _assigned_none(I, cls, attr):
+            return I.maybe(('null', oid, attr), Opaque(name))
         return Opaque(name)
     if callable(spec):
         return spec(I, st, o)
